@@ -19,6 +19,8 @@
 (*   ab = MergeConfig(x,y)   l = Merge(Merge(x,y),z)   r = Merge(x,Merge(y,z)) *)
 (*   fs = ReadConfigPaths of three files, dir = of one directory               *)
 (*   una/unb = inputs of Merge(x,y) unchanged, un3 = x,y,z unchanged after l   *)
+(*   (slices compared over their whole capacity), unh = x,y of the history      *)
+(*   hb, hx, hy = the history Merge(x,y); Merge(hb,z); Merge(hb,x) read at the end *)
 EXTENDS Integers, Sequences, FiniteSets, TLC
 
 CONSTANTS MaxList,  \* longest list
@@ -74,8 +76,14 @@ RuleName(k) == CASE k = "ov" -> "C31_later_wins" [] k = "or" -> "C31_switch_or"
                  [] k = "lw" -> "C31_compression" [] k = "map" -> "C31_tags_combined"
                  [] k = "list" -> "C31_lists_concat" [] OTHER -> "C31_none"
 
-Unmod(o) == (IF o.una = 0 \/ o.un3[1] = 0 THEN {"C31_mod_earlier"} ELSE {})
-            \cup (IF o.unb = 0 \/ o.un3[2] = 0 \/ o.un3[3] = 0 THEN {"C31_mod_later"} ELSE {})
+Unmod(o) == (IF o.una = 0 \/ o.un3[1] = 0 \/ o.unh[1] = 0 THEN {"C31_mod_earlier"} ELSE {})
+            \cup (IF o.unb = 0 \/ o.un3[2] = 0 \/ o.un3[3] = 0 \/ o.unh[2] = 0 THEN {"C31_mod_later"} ELSE {})
+
+\* history of merges sharing the left operand: hb = Merge(x,y), then hx = Merge(hb,z), then hy = Merge(hb,x); all three
+\* are read AFTER the last merge: a result must not be changed by later merges (no shared storage)
+Stable(k, x, y, z, o) == /\ Same(k, o.hb, Merge(k, x, y))
+                         /\ Same(k, o.hx, Merge(k, Merge(k, x, y), z))
+                         /\ Same(k, o.hy, Merge(k, Merge(k, x, y), x))
 
 Clauses(k, x, y, z, o) ==
   IF k = "raw" THEN Unmod(o)
@@ -84,6 +92,7 @@ Clauses(k, x, y, z, o) ==
         /\ Same(k, o.l, Merge(k, Merge(k, x, y), z))
         /\ Same(k, o.r, Merge(k, x, Merge(k, y, z))) THEN {} ELSE {RuleName(k)})
     \cup (IF Same(k, o.l, o.r) THEN {} ELSE {"C31_assoc"})
+    \cup (IF Stable(k, x, y, z, o) THEN {} ELSE {"C31_results_stable"})
     \cup (IF Same(k, o.fs, Fold3(k, x, y, z)) /\ Same(k, o.dir, Fold3(k, x, y, z)) THEN {} ELSE {"C31_files_fold"})
     \cup Unmod(o)
 
